@@ -17,6 +17,7 @@ class Sources:
         self.trees = {}
         self.sha = {}
         self.text = {}
+        self.imports = {}
 
     def module(self, mod):
         if mod not in self.trees:
@@ -26,6 +27,12 @@ class Sources:
             self.text[mod] = txt
             self.sha[mod] = hashlib.sha256(txt.encode()).hexdigest()
             self.trees[mod] = ast.parse(txt)
+            # `from .x import y [as z]` at module level: z in this module means x.y
+            self.imports[mod] = {}
+            for st in self.trees[mod].body:
+                if isinstance(st, ast.ImportFrom) and st.level == 1 and st.module:
+                    for a in st.names:
+                        self.imports[mod][a.asname or a.name] = f"{st.module}.{a.name}"
         return self.trees[mod]
 
     def find(self, key):
